@@ -10,6 +10,8 @@ From Coq Require Import Sorting.Permutation.
 
 Section M.
 Variable env : Env.
+(* `allow`: whether driver updates are among the macro steps considered (only the OpDrivers operation makes them) *)
+Variable allow : bool.
 
 Definition vstate_of (s : Sim) (vid : id) : option VState := option_map v_state (find vid (vehicles s)).
 
@@ -17,21 +19,21 @@ Definition vstate_of (s : Sim) (vid : id) : option VState := option_map v_state 
 Definition sourced (s : Sim) (vid : id) (nx : VState) : Prop :=
   forall r, state_route nx = Some r -> exists a b v, r = e_route env a b /\ find vid (vehicles s) = Some v /\ p_geoid a = v_geoid v.
 
-Inductive MStep : Sim -> Sim -> Prop :=
-| M_transition s vid st nx s' : vstate_of s vid = Some st -> transition env s (vid, st) (vid, nx) = Ok s' -> sourced s vid nx -> MStep s s'
-| M_perform s vid st s' : vstate_of s vid = Some st -> perform_update env vid st s = Ok s' -> MStep s s'
-| M_cancel s rid : MStep s (cancel_one env s rid)
-| M_admit s r : r_disp r = None -> MStep s (admit_request env s r)
-| M_price s sid prices : MStep s (update_station_prices env s sid prices)
-| M_driver rt s v s' : driver_update env rt s v = Ok s' -> MStep s s'
-| M_ghost s s' : same_entities s s' -> log s' = log s -> MStep s s'
-| M_tick s : MStep s (sim_tick s).
-Inductive MStar : Sim -> Sim -> Prop :=
-| MS_refl s : MStar s s
-| MS_step s1 s2 s3 : MStep s1 s2 -> MStar s2 s3 -> MStar s1 s3.
-Lemma MStar_trans a b c : MStar a b -> MStar b c -> MStar a c.
+Inductive MStepA : Sim -> Sim -> Prop :=
+| M_transition s vid st nx s' : vstate_of s vid = Some st -> transition env s (vid, st) (vid, nx) = Ok s' -> sourced s vid nx -> MStepA s s'
+| M_perform s vid st s' : vstate_of s vid = Some st -> perform_update env vid st s = Ok s' -> MStepA s s'
+| M_cancel s rid : MStepA s (cancel_one env s rid)
+| M_admit s r : r_disp r = None -> MStepA s (admit_request env s r)
+| M_price s sid prices : MStepA s (update_station_prices env s sid prices)
+| M_driver rt s v s' : allow = true -> driver_update env rt s v = Ok s' -> MStepA s s'
+| M_ghost s s' : same_entities s s' -> log s' = log s -> MStepA s s'
+| M_tick s : MStepA s (sim_tick s).
+Inductive MStarA : Sim -> Sim -> Prop :=
+| MS_refl s : MStarA s s
+| MS_step s1 s2 s3 : MStepA s1 s2 -> MStarA s2 s3 -> MStarA s1 s3.
+Lemma MStar_trans a b c : MStarA a b -> MStarA b c -> MStarA a c.
 Proof. induction 1; auto. intro. econstructor; eauto. Qed.
-Lemma MStar_one a b : MStep a b -> MStar a b.
+Lemma MStar_one a b : MStepA a b -> MStarA a b.
 Proof. intro. econstructor; [eassumption|constructor]. Qed.
 
 (* ---------- an operation on behalf of vehicle vid leaves every other vehicle record alone ---------- *)
@@ -174,14 +176,14 @@ Proof.
   intros H r Hr. destruct st; cbn in H; repeat dmatch H; inv H; cbn in Hr; try discriminate Hr.
   inv Hr. apply negb_false_iff in E1. apply Pos.eqb_eq in E1. exists (r_pos r0), (r_dest r0), v. split; [reflexivity|]. split; [first [exact E|reflexivity]|exact E1].
 Qed.
-Lemma vs_update_macro vid st s s' : vstate_of s vid = Some st -> vs_update env vid st s = Ok s' -> MStar s s'.
+Lemma vs_update_macro vid st s s' : vstate_of s vid = Some st -> vs_update env vid st s = Ok s' -> MStarA s s'.
 Proof.
   intros Hst. unfold vs_update. intro H. repeat dmatch H.
   - eapply MS_step; [eapply M_transition; eauto using default_terminal_sourced|]. apply MStar_one. eapply M_perform; eauto.
     unfold vstate_of. match goal with X : find vid (vehicles _) = Some _ |- _ => rewrite X end. reflexivity.
   - apply MStar_one. eapply M_perform; eauto.
 Qed.
-Lemma step_vehicle_macro s vid st : vstate_of s vid = Some st -> MStar s (step_vehicle env s (vid, st)).
+Lemma step_vehicle_macro s vid st : vstate_of s vid = Some st -> MStarA s (step_vehicle env s (vid, st)).
 Proof.
   intro Hst. unfold step_vehicle. cbn [fst snd]. destruct (vs_update env vid st s) eqn:E; try constructor. eapply vs_update_macro; eauto.
 Qed.
@@ -189,7 +191,7 @@ Qed.
 (* a fold over distinct vehicles, each processed in the activity it had at the start *)
 Lemma fold_vehicles_macro (l : list (id * VState)) : NoDup (map fst l) -> forall s, vkeys s ->
   (forall vs, In vs l -> vstate_of s (fst vs) = Some (snd vs)) ->
-  MStar s (fold_left (step_vehicle env) l s) /\ vkeys (fold_left (step_vehicle env) l s).
+  MStarA s (fold_left (step_vehicle env) l s) /\ vkeys (fold_left (step_vehicle env) l s).
 Proof.
   induction l as [|[vid st] l IH]; intros Nd s K Hst; cbn [fold_left]; [split; [constructor|exact K]|].
   inversion Nd as [|? ? Nin Nd']; subst.
@@ -215,7 +217,7 @@ Proof.
   intros I K. apply (Permutation_in _ (update_order_perm s)) in I. apply sorted_vals_In in I. destruct I as [k F].
   assert (v_id v = k) by (apply K; exact F). subst k. unfold vstate_of, find. rewrite F. reflexivity.
 Qed.
-Lemma perform_vehicle_state_updates_macro s : vkeys s -> MStar s (perform_vehicle_state_updates env s).
+Lemma perform_vehicle_state_updates_macro s : vkeys s -> MStarA s (perform_vehicle_state_updates env s).
 Proof.
   intro K. unfold perform_vehicle_state_updates.
   assert (G : forall (l : list Vehicle) s0, fold_left (fun acc v => step_vehicle env acc (v_id v, v_state v)) l s0
@@ -260,7 +262,7 @@ Proof.
   unfold apply_phase2. cbn [fst snd]. destruct (transition env s (vid, st) (vid, nx)) eqn:E; try apply vonly_refl.
   eapply vonly_trans; [eapply transition_vonly; eauto|apply vonly_same; reflexivity].
 Qed.
-Lemma apply_phase2_macro s i vid st nx : vstate_of s vid = Some st -> sourced s vid nx -> MStar s (apply_phase2 env s (i, ((vid, st), (vid, nx)))).
+Lemma apply_phase2_macro s i vid st nx : vstate_of s vid = Some st -> sourced s vid nx -> MStarA s (apply_phase2 env s (i, ((vid, st), (vid, nx)))).
 Proof.
   intros Hst Hsrc. unfold apply_phase2. cbn [fst snd]. destruct (transition env s (vid, st) (vid, nx)) eqn:E; try constructor.
   eapply MS_step; [eapply M_transition; eauto|]. apply MStar_one, M_ghost; [unfold same_entities; cbn; repeat split|reflexivity].
@@ -268,7 +270,7 @@ Qed.
 Lemma phase2_macro (l : list (Instr * (VS * VS))) : NoDup (map (fun e => instr_vid (fst e)) l) -> forall s, vkeys s ->
   (forall e, In e l -> fst (fst (snd e)) = instr_vid (fst e) /\ fst (snd (snd e)) = instr_vid (fst e) /\
                        vstate_of s (instr_vid (fst e)) = Some (snd (fst (snd e))) /\ sourced s (instr_vid (fst e)) (snd (snd (snd e)))) ->
-  MStar s (fold_left (apply_phase2 env) l s).
+  MStarA s (fold_left (apply_phase2 env) l s).
 Proof.
   induction l as [|[i [[pv pst] [nv nst]]] l IH]; intros Nd s K Hl; cbn [fold_left]; [constructor|].
   inversion Nd as [|? ? Nin Nd']; subst. cbn in Nin.
@@ -280,7 +282,7 @@ Proof.
   split; [unfold vstate_of; rewrite Oth; [exact C|exact Ne]|].
   intros r Hr. destruct (D r Hr) as (a & b & v & Er & Fv & Eg). exists a, b, v. rewrite Oth by exact Ne. auto.
 Qed.
-Lemma apply_instructions_macro s is : vkeys s -> NoDup (map instr_vid is) -> MStar s (apply_instructions env s is).
+Lemma apply_instructions_macro s is : vkeys s -> NoDup (map instr_vid is) -> MStarA s (apply_instructions env s is).
 Proof.
   intros K Nd. unfold apply_instructions. rewrite phase1_is_flat_map. cbn [app].
   apply phase2_macro; auto.
@@ -289,7 +291,7 @@ Proof.
 Qed.
 
 (* ---------- the other operations ---------- *)
-Lemma fold_macro {X} (f : Sim -> X -> Sim) (l : list X) : (forall s x, MStar s (f s x)) -> forall s, MStar s (fold_left f l s).
+Lemma fold_macro {X} (f : Sim -> X -> Sim) (l : list X) : (forall s x, MStarA s (f s x)) -> forall s, MStarA s (fold_left f l s).
 Proof. intro Hf. induction l as [|x l IH]; intro s; cbn; [constructor|]. eapply MStar_trans; [apply Hf|apply IH]. Qed.
 
 Definition op_ok (o : Op) : Prop :=
@@ -299,18 +301,18 @@ Definition op_ok (o : Op) : Prop :=
   | _ => True
   end.
 
-Theorem step_op_macro s o : vkeys s -> op_ok o -> MStar s (step_op env s o).
+Theorem step_op_macroA s o : (allow = true \/ forall rt, o <> OpDrivers rt) -> vkeys s -> op_ok o -> MStarA s (step_op env s o).
 Proof.
-  intros K Hok. destruct o; cbn [step_op].
+  intros Al K Hok. destruct o; cbn [step_op].
   - apply apply_instructions_macro; assumption.
   - apply perform_vehicle_state_updates_macro. exact K.
   - unfold cancel_requests. apply fold_macro. intros. apply MStar_one, M_cancel.
-  - unfold admit_requests. cbn in Hok. clear K. revert s. induction rows as [|r rows IH]; intro s; cbn [fold_left]; [constructor|].
+  - unfold admit_requests. cbn in Hok. clear K Al. revert s. induction rows as [|r rows IH]; intro s; cbn [fold_left]; [constructor|].
     pose proof (Forall_inv Hok) as H1. pose proof (Forall_inv_tail Hok) as H2. cbn beta in H1.
     eapply MS_step; [apply M_admit; exact H1|]. apply IH. exact H2.
   - apply fold_macro. intros s0 u. apply MStar_one, M_price.
-  - unfold perform_driver_state_updates.
-    assert (G : forall l acc, MStar s acc -> MStar s (fold_left (fun acc v => match driver_update env range_target acc v with Ok s' => s' | _ => s end) l acc)).
+  - destruct Al as [Al|Al]; [|exfalso; eapply Al; reflexivity]. unfold perform_driver_state_updates.
+    assert (G : forall l acc, MStarA s acc -> MStarA s (fold_left (fun acc v => match driver_update env range_target acc v with Ok s' => s' | _ => s end) l acc)).
     { induction l as [|v l IH]; intros acc Hacc; cbn [fold_left]; [exact Hacc|]. apply IH.
       destruct (driver_update env range_target acc v) eqn:E; try constructor. eapply MStar_trans; [exact Hacc|]. apply MStar_one. eapply M_driver; eauto. }
     apply G. constructor.
@@ -321,7 +323,7 @@ Qed.
 (* ---------- every macro step keeps the vehicle map keyed by id; invariants lift from macro steps to histories ---------- *)
 Lemma vkeys_of_same s s' : vehicles s' = vehicles s -> vkeys s -> vkeys s'.
 Proof. intros V K. unfold vkeys. rewrite V. exact K. Qed.
-Lemma mstep_vkeys s s' : vkeys s -> MStep s s' -> vkeys s'.
+Lemma mstep_vkeysA s s' : vkeys s -> MStepA s s' -> vkeys s'.
 Proof.
   intros K M. destruct M.
   - apply (proj1 (transition_vonly _ _ _ _ _ H0 K)).
@@ -336,22 +338,33 @@ Proof.
     unfold vkeys, emit. cbn. rewrite V. exact K.
   - unfold update_station_prices. destruct (find sid (stations s)); [|exact K].
     destruct (modify_station env s _) eqn:E; try exact K. apply modify_station_spec in E. destruct E as (_ & _ & V & _). eapply vkeys_of_same; eauto.
-  - destruct (driver_update_vstep env (dt s) rt s v s' H eq_refl K) as (_ & K' & _). exact K'.
+  - match goal with X : driver_update _ _ _ _ = Ok _ |- _ => destruct (driver_update_vstep env (dt s) true rt s v s' eq_refl X eq_refl K) as (_ & K' & _) end. exact K'.
   - destruct H as (V & _). eapply vkeys_of_same; eauto.
   - exact K.
 Qed.
 
-Lemma mstar_invariant (P : Sim -> Prop) : (forall s s', vkeys s -> P s -> MStep s s' -> P s') ->
-  forall s s', MStar s s' -> vkeys s -> P s -> vkeys s' /\ P s'.
+Lemma mstar_invariantA (P : Sim -> Prop) : (forall s s', vkeys s -> P s -> MStepA s s' -> P s') ->
+  forall s s', MStarA s s' -> vkeys s -> P s -> vkeys s' /\ P s'.
 Proof.
-  intros Hstep s s' M. induction M as [|s1 s2 s3 M _ IH]; intros K I; [auto|]. apply IH; [eapply mstep_vkeys; eauto|eapply Hstep; eauto].
+  intros Hstep s s' M. induction M as [|s1 s2 s3 M _ IH]; intros K I; [auto|]. apply IH; [eapply mstep_vkeysA; eauto|eapply Hstep; eauto].
 Qed.
 
-Theorem history_invariant (P : Sim -> Prop) : (forall s s', vkeys s -> P s -> MStep s s' -> P s') ->
+Theorem history_invariantA (P : Sim -> Prop) : allow = true -> (forall s s', vkeys s -> P s -> MStepA s s' -> P s') ->
   forall ops s0, vkeys s0 -> P s0 -> Forall op_ok ops -> vkeys (fold_left (step_op env) ops s0) /\ P (fold_left (step_op env) ops s0).
 Proof.
-  intros Hstep. induction ops as [|o ops IH]; intros s0 K I Hok; cbn [fold_left]; [auto|].
+  intros Al Hstep. induction ops as [|o ops IH]; intros s0 K I Hok; cbn [fold_left]; [auto|].
   inversion Hok; subst.
-  destruct (mstar_invariant P Hstep _ _ (step_op_macro s0 o K H1) K I) as [K1 I1]. apply IH; auto.
+  destruct (mstar_invariantA P Hstep _ _ (step_op_macroA s0 o (or_introl Al) K H1) K I) as [K1 I1]. apply IH; auto.
 Qed.
 End M.
+
+(* the instances used by the history invariants: driver updates included *)
+Definition MStep (env : Env) : Sim -> Sim -> Prop := MStepA env true.
+Definition MStar (env : Env) : Sim -> Sim -> Prop := MStarA env true.
+Definition step_op_macro env s o (K : vkeys s) (Hok : op_ok o) : MStar env s (step_op env s o) := step_op_macroA env true s o (or_introl eq_refl) K Hok.
+Definition mstep_vkeys env s s' : vkeys s -> MStep env s s' -> vkeys s' := mstep_vkeysA env true s s'.
+Definition mstar_invariant env (P : Sim -> Prop) : (forall s s', vkeys s -> P s -> MStep env s s' -> P s') ->
+  forall s s', MStar env s s' -> vkeys s -> P s -> vkeys s' /\ P s' := mstar_invariantA env true P.
+Definition history_invariant env (P : Sim -> Prop) : (forall s s', vkeys s -> P s -> MStep env s s' -> P s') ->
+  forall ops s0, vkeys s0 -> P s0 -> Forall op_ok ops -> vkeys (fold_left (step_op env) ops s0) /\ P (fold_left (step_op env) ops s0) :=
+  history_invariantA env true P eq_refl.
